@@ -331,6 +331,11 @@ func C20(c *core.Ctx) {
 			f.AcctRx = "Depot"
 		case 3:
 			f.AcctRx = "Bank"
+		case 4:
+			// a portfolio that is a debt: a loan denominated in a security (its value is negative and moves with the price)
+			j.Dirs = append(j.Dirs, kj.Dir{K: "open", Z: base - 1, A: "Liabilities:Loan"},
+				kj.Dir{K: "trx", Z: base, Desc: "borrow", Bk: []kj.Booking{{Cr: "Liabilities:Loan", Dr: "Equity:Equity", C: secs[0], Q: 20 + rng.Intn(60)}}})
+			f.AcctRx = "Loan"
 		}
 		uni := map[string][]string{"CHF": {"Cash"}}
 		classes := [][]string{{"Stocks", "Tech"}, {"Stocks", "Pharma"}, {"Bonds", "Gov"}}
